@@ -179,6 +179,19 @@ func Explore(o Options, body func(*Run)) *Result {
 	o.defaults()
 	start := time.Now()
 	res := &Result{Name: o.Name, Kind: "schedules", Outcomes: map[string]int{}, BoundCompleted: -1, Exhaustive: true}
+	if rp := loadReplay(); rp != nil {
+		if rp.Scenario != o.Name {
+			return res
+		}
+		r, fails := Replay(o, body, rp.Choices)
+		fmt.Printf("REPLAY %s choices=%v\n  outcome=%v\n  log=%v\n  fails=%v\n", o.Name, rp.Choices, r.outcome, r.log, fails)
+		res.Executions, res.States, res.Transitions = 1, 1, 1
+		if len(fails) > 0 {
+			res.Violations = append(res.Violations, Violation{Scenario: o.Name, Msgs: fails, Choices: rp.Choices, Log: r.log, Finger: fingerprint(o.Name, firstLine(fails[0])), Class: firstLine(fails[0])})
+		}
+		Record(res)
+		return res
+	}
 	deadline := GlobalDeadline()
 	if o.Budget > 0 {
 		if d := start.Add(o.Budget); d.Before(deadline) {
@@ -341,6 +354,22 @@ func BFS(o Options, depth int, ops []string, apply func(r *Run, hist []string) S
 	o.defaults()
 	start := time.Now()
 	res := &Result{Name: o.Name, Kind: "histories", Outcomes: map[string]int{}, Exhaustive: true}
+	if rp := loadReplay(); rp != nil {
+		if rp.Scenario != o.Name {
+			return res
+		}
+		if !o.NoWarmup {
+			oneExec(&o, func(r *Run) { apply(r, nil) }, nil)
+		}
+		r, _ := oneExec(&o, func(r *Run) { apply(r, rp.History) }, nil)
+		fmt.Printf("REPLAY %s history=%v\n  log=%v\n  fails=%v\n", o.Name, rp.History, r.log, r.fails)
+		res.Executions, res.States, res.Transitions = 1, 1, 1
+		if len(r.fails) > 0 {
+			res.Violations = append(res.Violations, Violation{Scenario: o.Name, Msgs: r.fails, History: rp.History, Log: r.log, Finger: fingerprint(o.Name, strings.Join(rp.History, ";"), firstLine(r.fails[0])), Class: firstLine(r.fails[0])})
+		}
+		Record(res)
+		return res
+	}
 	deadline := GlobalDeadline()
 	if o.Budget > 0 {
 		if d := start.Add(o.Budget); d.Before(deadline) {
@@ -483,6 +512,43 @@ func (c *Cases) Done() *Result {
 	Record(c.res)
 	return c.res
 }
+
+// ---------------------------------------------------------------------------
+// replay files
+
+type replayFile struct {
+	Property string   `json:"property"`
+	Scenario string   `json:"scenario"`
+	Choices  []int    `json:"choices"`
+	History  []string `json:"history"`
+}
+
+var (
+	replayOnce sync.Once
+	replayData *replayFile
+)
+
+func loadReplay() *replayFile {
+	replayOnce.Do(func() {
+		p := os.Getenv("VRT_REPLAY")
+		if p == "" {
+			return
+		}
+		b, err := os.ReadFile(p)
+		if err != nil {
+			InfraError("cannot read replay file: %v", err)
+		}
+		var rf replayFile
+		if err := json.Unmarshal(b, &rf); err != nil {
+			InfraError("bad replay file: %v", err)
+		}
+		replayData = &rf
+	})
+	return replayData
+}
+
+// Replaying reports whether this process replays a recorded violation.
+func Replaying() bool { return loadReplay() != nil }
 
 // ---------------------------------------------------------------------------
 // report
